@@ -1,4 +1,4 @@
-use super::{DecoderError, NeedMore};
+use super::DecoderError;
 use crate::ext::Protocol;
 
 use bytes::Bytes;
@@ -63,7 +63,12 @@ impl Header<Option<HeaderName>> {
 impl Header {
     pub fn new(name: Bytes, value: Bytes) -> Result<Header, DecoderError> {
         if name.is_empty() {
-            return Err(DecoderError::NeedMore(NeedMore::UnexpectedEndOfStream));
+            // An empty field name is never valid. This must be a hard error:
+            // the literal has already been consumed from the buffer, so
+            // reporting `NeedMore` here would make a header block that
+            // continues in a CONTINUATION frame resume *after* the field and
+            // silently drop it.
+            return Err(DecoderError::InvalidUtf8);
         }
         if name[0] == b':' {
             match &name[1..] {
